@@ -362,6 +362,17 @@ def leg_chains(run, thorough):
                                               ("meter", "kilomillimeter", ["meter", "km", "3 m -> ft"]), ("foot", "feet", ["foot", "feet"])]):
         leg.add({"currency": cur(name, expr), "base": "bundled", "probes": probes},
                 {"family": "alias-cycle", "variant": "second-load", "name": name, "expr": expr}, nontrivial="alias2:%d" % k)
+    # base units whose LONG NAMES are names of other definitions (of each other, of themselves, of units, of aliases of
+    # themselves), referred to from units that sort before and after them: every long-name graph over three names
+    names = ["a", "b", "c"]
+    import itertools
+    k = 0
+    for longs in itertools.product(["", "a", "b", "c", "d"], repeat=3):
+        for user in ("aa 3 a\nzz 2 b c\n", "aa 3 %s\n" % (longs[0] or "a"), "zz c %s\nab zz\n" % (longs[1] or "b")):
+            text = "".join("%s !%s\n" % (n, l) for n, l in zip(names, longs)) + user
+            k += 1
+            if k % (1 if thorough else 3) == 0:
+                leg.add({"defs": text, "probes": ["aa", "zz", "1 a -> a"]}, {"family": "long-name-graph", "text": text}, nontrivial="longname:%d" % k)
     stats = leg.execute(shards=8, timeout_ms=60000, min_per_shard=50)
     run.note("chains", stats)
     # an acyclic chain has no problem to report; a report there is an oddity of the algorithm, not a C13 violation
